@@ -255,29 +255,10 @@ def nodupB : List Nat → Bool
 /-- no column is written twice: the sparse sum `lhs` and the dense row agree -/
 def CRow.cleanB (r : CRow) : Bool := nodupB (r.ent.map (·.1))
 
-/-- the model of `backProject(ddn, basis)`: tags by `merge`, values by enumeration -/
-def unionKeys (a b : List Nat) : List Nat := (mergePF (a.map (fun k => (k, 0))) (b.map (fun k => (k, 0)))).map (·.1)
-
-def bpTags (ddn : List DNode) (tag : List Nat) : List Nat × List Nat :=
-  tag.foldl (fun (acc : List Nat × List Nat) d =>
-    let nd := ddn.getD d ⟨[], [], []⟩
-    (nd.parents.foldl unionKeys acc.1, unionKeys acc.2 nd.agents)) ([], [])
-
-/-- full assignment that carries `vals` at `keys` and 0 elsewhere -/
-def scatter (n : Nat) (keys vals : List Nat) : List Nat :=
-  (List.range n).map (fun i => match (keys.zip vals).find? (fun p => p.1 == i) with | some p => p.2 | none => 0)
-
-def backProject1 (S A : List Nat) (ddn : List DNode) (hk : Basis) : BasisM :=
-  let t := bpTags ddn hk.tag
-  let sizeS := spacePartial t.1 S
-  let sizeA := spacePartial t.2 A
-  let sub := ddn.zipIdx.filter (fun p => hk.tag.contains p.2)
-  let vals := (List.range (sizeS * sizeA)).map (fun i =>
-    let s := scatter S.length t.1 (toFactors (sel t.1 S) (i / sizeA))
-    let a := scatter A.length t.2 (toFactors (sel t.2 A) (i % sizeA))
-    sumQ ((List.range (spacePartial hk.tag S)).map (fun r =>
-      let s1 := scatter S.length hk.tag (toFactors (sel hk.tag S) r)
-      hk.vals.getD r 0 * sub.foldl (fun acc p => acc * p.1.prob S A s a (s1.getD p.2 0)) 1)))
-  ⟨t.1, t.2, vals⟩
+/-- `backProject(ddn, basis)`: C14's model of the library routine (`AITB.Factored.backProject`, proved there to be the
+    exact expectation), with the value matrix read row-major as the harness emits it -/
+def bpModel (S A : List Nat) (ddn : List DNode) (hk : Basis) : BasisM :=
+  let b := AITB.Factored.backProject (toGraph S A ddn) (toT ddn) ⟨hk.tag, hk.vals⟩
+  ⟨b.tag, b.atag, b.vals.flatten⟩
 
 end AITB.FLP
